@@ -301,6 +301,28 @@ def unit_field_generated(ctx, m, n_pairs, n_minpoly):
     ctx.sample({"kind": "field_generated", "m": m})
 
 
+def unit_field_mixed(ctx, n):
+    """All fields m=1..16 live in ONE process and are used interleaved (consecutive cases belong to different fields; field objects are
+    created once and kept, and fresh ones are created in between): per-field tables or caches must not leak between fields."""
+    keep = {m: _field(m) for m in range(1, 17)}
+
+    def f(t):
+        m, a, b, c, e = t
+        size = 1 << m
+        a, b, c = a % size, b % size, c % size
+        check_field_pair(ctx, m, a, b)
+        check_field_triple(ctx, m, a, b, c)
+        check_field_elem(ctx, m, a, exps=(e % (3 * size), e % 50), minpoly=(m <= 10))
+        # the long-lived object of that field agrees with the fresh one
+        F = keep[m]
+        fmod = F.modulus.value
+        ctx.check((F(a) * F(b)).value == R.mulmod(a, b, fmod), "C18.f_mul", {"kind": "field", "m": m, "mode": "interleaved"}, {"kind": "field_pair", "m": m, "a": a, "b": b}, None, None,
+                  "product != polynomial product mod modulus (field object kept while other fields were used)", CHK)
+        ctx.cls("field_mixed_cases")
+    draw_cases(st.tuples(st.integers(1, 16), st.integers(0, 65535), st.integers(0, 65535), st.integers(0, 65535), st.integers(0, 200000)), n, ctx.seed * 100 + 77, f)
+    ctx.sample({"kind": "field_mixed", "fields": "m=1..16 interleaved in one process"})
+
+
 # ----------------------------------------------------------------------------- plumbing
 
 def unit_fuzz(ctx, runs):
@@ -370,5 +392,6 @@ def units(tier, seed):
         else:
             nm = 16 if T else 1
         us.append(Unit(f"field_gen_m{m}", "c18:unit_field_generated", {"m": m, "n_pairs": 3000 if T else 400, "n_minpoly": nm}, 5 + (m > 12) * 20))
+    us.append(Unit("field_mixed", "c18:unit_field_mixed", {"n": 6000 if T else 500}, 5))
     us.append(Unit("fuzz_poly", "c18:unit_fuzz", {"runs": 2000000 if T else 100000}, 8))
     return us
